@@ -70,7 +70,7 @@ class C11(core.Check):
     GEN = ['gen_arrays']
     PROPS = 'props/C11.v'
     MODEL_IMPORTS = ['gen.Gen_arrays', 'model.Arrays', 'model.VarMem']
-    QUICK_CASES = 500
+    QUICK_CASES = 300
     THOROUGH_CASES = 4000
     TRUSTED = ['hand model model/VarMem.v + model/Arrays.v of Scalars.set/get_memory, Arrays.get_memory (as fixed by '
                'fixes/D6.patch), DataSegment.let_/swap_/varptr_/varptr_str_/_get_var_memory tied by correspondence '
@@ -149,6 +149,9 @@ class C11(core.Check):
         ranks = {a: rng.choice([1, 1, 2, 2, 3]) for a in arrs}
         counter = [0]
         ops = []
+        # arrays believed to be dimensioned (small); others are only touched when rank 1, or rarely, so that
+        # the 11^rank elements of an auto-dimensioned array do not dominate the dumps
+        small = set()
 
         def val(nm):
             counter[0] += 1
@@ -157,6 +160,15 @@ class C11(core.Check):
                 return ''.join(rng.choice('abcxyz01') for _ in range(rng.choice([0, 1, 2, 3, 5, 9])))
             return au.rand_value(rng, canon(nm), counter[0] + rng.randrange(1000))
 
+        def bounds(a):
+            top = 4 if ranks[a] == 1 else 3 if ranks[a] == 2 else 2
+            return [rng.randint(0, top) for _j in range(ranks[a])]
+
+        def dim(names):
+            ops.append(['dim', [[a, bounds(a)] for a in names]])
+            for a in names:
+                small.add(canon(a))
+
         def index(a):
             rk = ranks[a]
             if rng.random() < 0.05:
@@ -164,42 +176,51 @@ class C11(core.Check):
             return [rng.choice([0, 1, 1, 2, 2, 3, 4, 10, 11, -1]) if rng.random() < 0.3 else rng.randint(0, 2)
                     for _ in range(rk)]
 
+        def arr():
+            ok = [a for a in arrs if canon(a) in small or ranks[a] == 1 or rng.random() < 0.03]
+            if not ok:
+                dim([rng.choice(arrs)])
+                ok = [a for a in arrs if canon(a) in small]
+            return rng.choice(ok)
+
         def cell():
             if rng.random() < 0.5:
                 return rng.choice(scal), []
-            a = rng.choice(arrs)
+            a = arr()
             return a, index(a)
         if rng.random() < 0.25:
             ops.append(['base', rng.choice([0, 1])])
-        for _ in range(rng.randint(5, 16)):
+        for _ in range(rng.randint(5, 14)):
             r = rng.random()
             if r < 0.22:
                 nm = rng.choice(scal)
                 ops.append(['lets', nm, val(nm)])
             elif r < 0.42:
-                a = rng.choice(arrs)
+                a = arr()
                 ops.append(['lete', a, index(a), val(a)])
             elif r < 0.52:
-                args = []
-                for _k in range(rng.choice([1, 1, 2])):
-                    a = rng.choice(arrs)
-                    args.append([a, [rng.choice([0, 1, 2, 2, 3, 4]) for _j in range(ranks[a])]])
-                ops.append(['dim', args])
+                dim([rng.choice(arrs) for _k in range(rng.choice([1, 1, 2]))])
             elif r < 0.6:
-                ops.append(['erase', [rng.choice(arrs) for _k in range(rng.choice([1, 1, 2]))]])
+                names = [rng.choice(arrs) for _k in range(rng.choice([1, 1, 2]))]
+                ops.append(['erase', names])
+                for a in names:
+                    small.discard(canon(a))
             elif r < 0.63:
                 ops.append(['base', rng.choice([0, 1])])
             elif r < 0.645:
                 ops.append(['clear'])
+                small.clear()
             elif r < 0.75:
                 (n1, i1), (n2, i2) = cell(), cell()
                 if rng.random() < 0.7:
                     # same type most of the time
-                    pool = [x for x in scal + arrs if canon(x)[-1] == canon(n1)[-1]]
-                    n2 = rng.choice(pool)
-                    i2 = index(n2) if n2 in arrs and (n2 not in scal or rng.random() < 0.5) else []
-                    if n2 in arrs and n2 not in scal and not i2:
-                        i2 = index(n2)
+                    t = canon(n1)[-1]
+                    pool = [(x, []) for x in scal if canon(x)[-1] == t]
+                    pool += [(x, None) for x in arrs if canon(x)[-1] == t and (canon(x) in small or ranks[x] == 1)]
+                    if pool:
+                        n2, i2 = rng.choice(pool)
+                        if i2 is None:
+                            i2 = index(n2)
                 ops.append(['swap', n1, i1, n2, i2])
             elif r < 0.82:
                 nm, idx = cell()
@@ -212,9 +233,10 @@ class C11(core.Check):
                 ops.append(['peekv', nm, idx, rng.randrange(au.SIZE[canon(nm)[-1]])])
             else:
                 ops.append(['fre'])
-            if ops[-1][0] in ('lets', 'lete', 'dim', 'erase', 'swap', 'clear', 'fre') or rng.random() < 0.3:
+            if ops[-1][0] in ('lets', 'lete', 'dim', 'erase', 'swap', 'clear', 'fre'):
                 ops.append(['dump'])
-        ops.append(['dump'])
+        if ops[-1][0] != 'dump':
+            ops.append(['dump'])
         return ops
 
     # ------------------------------------------------------------------ implementation
